@@ -183,6 +183,23 @@ Proof.
 Qed.
 Print Assumptions C15_select_or_error.
 
+(* prm_wf demands NUMERIC diode sizes, and it must: DiodeParams allows Literal sizes, and for those both walkers
+   multiply two Literals — an escaping TypeError (recorded findings C15:escape:<pdk>:Diode:<model>:literal).
+   The statement with the weaker hypothesis "every size is absent, a number or a Literal" is refuted: *)
+Definition lit_diode (m : string) : pparams :=
+  {| pm_model := Some m; pm_tp := ""; pm_fam := ""; pm_vth := ""; pm_w := Some (PLit "a"); pm_l := Some (PLit "b");
+     pm_nf := None; pm_mult := None |}.
+Theorem C15_select_or_error_literal_diode_refuted :
+  ~ (forall k p g prm, group_of k p = Some g -> scalar_ok (pm_w prm) = true -> scalar_ok (pm_l prm) = true ->
+                       conv_g k g prm <> SErr EEscape).
+Proof. intros H. apply (H Sky130 Diode GDiode (lit_diode "PWND_5p5V")); vm_compute; reflexivity. Qed.
+Print Assumptions C15_select_or_error_literal_diode_refuted.
+
+Theorem C15_literal_diode_witnesses :
+  conv_g Sky130 GDiode (lit_diode "PWND_5p5V") = SErr EEscape /\ conv_g Gf180 GDiode (lit_diode "ND2PS_3p3V") = SErr EEscape.
+Proof. vm_compute. split; reflexivity. Qed.
+Print Assumptions C15_literal_diode_witnesses.
+
 (* selection succeeds => the call is built, unless a parameter VALUE is rejected (ValueError: non-positive size in the
    sample PDK, non-integral multiplier of a Sky130 capacitor / bipolar) *)
 Theorem C15_selected_is_built k g prm e : sel_entry k g prm = SOk e -> prm_wf k g prm = true ->
@@ -206,26 +223,32 @@ Qed.
 Print Assumptions C15_every_device_reachable.
 
 (* ================================================================ 8. ports *)
-(* The EXACT list of (PDK, primitive, model) whose device does not have the primitive's port list.
-   (a) devices with a terminal no generic primitive has: the instance is left with an unconnected port
-       (recorded: tools/findings/C15.json, keys C15:ports:<pdk>:<primitive>:<model>);
-   (b) the resistor / capacitor tables are shared by the two-terminal and the three-terminal primitive: a model
-       requested through the primitive of the other arity leaves `b` unconnected (2 -> 3) or dangling (3 -> 2)
-       (recorded: keys C15:arity:<pdk>:<primitive>). *)
-Definition ports_exceptions : list (pdk * prim * list string) :=
+(* The EXACT lists of (PDK, primitive, model) whose device does not have the primitive's port list.
+   ports_unconnected: the device has a terminal the primitive lacks — the instance is left with an unconnected port
+     and cannot be netlisted (recorded in tools/findings/C15.json):
+     (a) devices with a terminal no generic primitive has (keys C15:ports:<pdk>:<primitive>:<model>);
+     (b) the resistor / capacitor tables are shared by the two- and the three-terminal primitive: a three-terminal
+         model requested through the two-terminal primitive leaves `b` unconnected (keys C15:arity:<pdk>:<primitive>).
+   ports_dangling: a two-terminal model requested through the three-terminal primitive — every device port is still
+     connected exactly once; the primitive's connection to `b` names no device port (the netlisters drop it). *)
+Definition ports_unconnected : list (pdk * prim * list string) :=
   [ (Sky130, Mos, ["NMOS_ISO_20p0V"]);
     (Sky130, Bipolar, ["NPN_5p0V_1x2"; "NPN_11p0V_1x1"; "NPN_5p0V_1x1"]);
     (Gf180, Bipolar, ["NPN_10p0x10p0"; "NPN_5p0x5p0"; "NPN_0p54x16p0"; "NPN_0p54x8p0"; "NPN_0p54x4p0"; "NPN_0p54x2p0"]);
     (Sky130, PRes, ["GEN_ND"; "GEN_PD"; "GEN_ISO_PW"; "PP_PREC_0p35"; "PP_PREC_0p69"; "PP_PREC_1p41"; "PP_PREC_2p85"; "PP_PREC_5p73";
                     "PM_PREC_0p35"; "PM_PREC_0p69"; "PM_PREC_1p41"; "PM_PREC_2p85"; "PM_PREC_5p73"]);
-    (Sky130, TRes, ["GEN_PO"; "GEN_L1"; "GEN_M1"; "GEN_M2"; "GEN_M3"; "GEN_M4"; "GEN_M5"]);
     (Sky130, PCap, ["VAR_LVT"; "VAR_HVT"]);
-    (Sky130, TCap, ["MIM_M3"; "MIM_M4"]);
     (Gf180, PRes, ["NPLUS_U"; "PPLUS_U"; "NPLUS_S"; "PPLUS_S"; "NWELL"; "NPOLYF_U"; "PPOLYF_U"; "NPOLYF_S"; "PPOLYF_S";
-                   "PPOLYF_U_1K"; "PPOLYF_U_2K"; "PPOLYF_U_1K_6P0"; "PPOLYF_U_2K_6P0"; "PPOLYF_U_3K"]);
+                   "PPOLYF_U_1K"; "PPOLYF_U_2K"; "PPOLYF_U_1K_6P0"; "PPOLYF_U_2K_6P0"; "PPOLYF_U_3K"]) ].
+
+Definition ports_dangling : list (pdk * prim * list string) :=
+  [ (Sky130, TRes, ["GEN_PO"; "GEN_L1"; "GEN_M1"; "GEN_M2"; "GEN_M3"; "GEN_M4"; "GEN_M5"]);
+    (Sky130, TCap, ["MIM_M3"; "MIM_M4"]);
     (Gf180, TRes, ["RM1"; "RM2"; "RM3"; "TM6K"; "TM9K"; "TM11K"; "TM30K"]);
     (Gf180, TCap, ["MIM_1p5fF"; "MIM_1p0fF"; "MIM_2p0fF"; "PMOS_3p3V"; "NMOS_6p0V"; "PMOS_6p0V"; "NMOS_3p3V";
                    "NMOS_Nwell_3p3V"; "PMOS_Pwell_3p3V"; "NMOS_Nwell_6p0V"; "PMOS_Pwell_6p0V"]) ].
+
+Definition ports_exceptions := ports_unconnected ++ ports_dangling.
 
 (* for every device reachable from primitive p: its ordered port list equals p's EXACTLY WHEN it is not listed *)
 Theorem C15_ports_match k p g e : group_of k p = Some g -> In e (table k g) ->
@@ -233,17 +256,25 @@ Theorem C15_ports_match k p g e : group_of k p = Some g -> In e (table k g) ->
 Proof. apply ports_lift. vm_compute. reflexivity. Qed.
 Print Assumptions C15_ports_match.
 
+(* its ports are among p's (so p's connections connect every device port) EXACTLY WHEN it is not in ports_unconnected *)
+Theorem C15_ports_covered k p g e : group_of k p = Some g -> In e (table k g) ->
+  ports_sub p e = negb (is_exc ports_unconnected k p (model_of e)).
+Proof. apply ports_lift. vm_compute. reflexivity. Qed.
+Print Assumptions C15_ports_covered.
+
 (* every listed exception is a model of the table it is listed for *)
 Theorem C15_ports_exceptions_present : exc_present ports_exceptions = true.
 Proof. vm_compute. reflexivity. Qed.
 Print Assumptions C15_ports_exceptions_present.
 
-(* the unrestricted statement is false: the recorded witnesses *)
+(* the unrestricted statements are false: the recorded witnesses *)
 Theorem C15_ports_match_refuted :
+  ~ (forall k p g e, group_of k p = Some g -> In e (table k g) -> ports_sub p e = true) /\
   ~ (forall k p g e, group_of k p = Some g -> In e (table k g) -> ports_ok p e = true).
 Proof.
-  intros H. assert (X : existsb (fun e => negb (ports_ok Mos e)) (table Sky130 GMos) = true) by (vm_compute; reflexivity).
-  apply existsb_exists in X. destruct X as [e [I N]]. rewrite (H Sky130 Mos GMos e eq_refl I) in N. discriminate N.
+  assert (X : existsb (fun e => negb (ports_sub Mos e) && negb (ports_ok Mos e)) (table Sky130 GMos) = true) by (vm_compute; reflexivity).
+  apply existsb_exists in X. destruct X as [e [I N]]. apply andb_true_iff in N. destruct N as [N1 N2].
+  split; intros H; rewrite (H Sky130 Mos GMos e eq_refl I) in *; discriminate.
 Qed.
 Print Assumptions C15_ports_match_refuted.
 
@@ -255,16 +286,21 @@ Theorem C15_ports_witnesses :
 Proof. repeat split; apply witness_lift; vm_compute; reflexivity. Qed.
 Print Assumptions C15_ports_witnesses.
 
-(* consequence: an instance whose connections name exactly the primitive's ports, compiled to a non-excepted
-   device, names exactly the device's ports — each device port connected exactly once *)
+(* consequence: an instance whose connections connect the primitive's ports, compiled to a device not in
+   ports_unconnected, connects every device port (connections are a map: exactly once); if the device is in neither
+   list the connections name exactly the device's ports *)
 Theorem C15_swapped_instance_valid k p g prm d f l conns : group_of k p = Some g -> prim_ports p = Some l ->
-  conv_g k g prm = SOk (d, f) -> conns_exact l conns = true ->
+  conv_g k g prm = SOk (d, f) ->
   exists e, In e (table k g) /\ snd e = d /\
-            (is_exc ports_exceptions k p (model_of e) = false -> conns_exact (dev_ports d) conns = true).
+            (is_exc ports_unconnected k p (model_of e) = false -> ports_connected l conns = true ->
+             ports_connected (dev_ports d) conns = true) /\
+            (is_exc ports_exceptions k p (model_of e) = false -> conns_exact l conns = true ->
+             conns_exact (dev_ports d) conns = true).
 Proof.
-  intros G P H C. destruct (conv_sel _ _ _ _ H) as [e [S E]]. cbn [fst] in E. pose proof (sel_in _ _ _ _ S) as I.
-  exists e. split; [exact I|]. split; [auto|]. intros X. rewrite E.
-  apply (ports_ok_exact p e conns l P); [|exact C]. rewrite (C15_ports_match k p g e G I), X. reflexivity.
+  intros G P H. destruct (conv_sel _ _ _ _ H) as [e [S E]]. cbn [fst] in E. pose proof (sel_in _ _ _ _ S) as I.
+  exists e. split; [exact I|]. split; [auto|]. rewrite E. split; intros X C.
+  - apply (ports_sub_connected p e conns l P); [|exact C]. rewrite (C15_ports_covered k p g e G I), X. reflexivity.
+  - apply (ports_ok_exact p e conns l P); [|exact C]. rewrite (C15_ports_match k p g e G I), X. reflexivity.
 Qed.
 Print Assumptions C15_swapped_instance_valid.
 
